@@ -83,7 +83,8 @@ for eps, tier in [("125", "thorough"), ("150", "thorough")]:
 h("C17", "c17", "c17_simplex_selection_n4", "thorough", 1800,
   "select_balanced_simplex_indices + reorder_vertices_for_simplex: n=4, D=2, coordinates in {-2..2}: indices distinct and in "
   "range, reordered list is a permutation starting with the selected vertices",
-  ["core::delaunay_triangulation::select_balanced_simplex_indices", "core::delaunay_triangulation::reorder_vertices_for_simplex"])
+  ["core::delaunay_triangulation::select_balanced_simplex_indices", "core::delaunay_triangulation::reorder_vertices_for_simplex"],
+  mem_gb=28)
 h(["C17", "C19"], "c17", "c17_reorder_rejects_bad_indices_n4", "quick", 600,
   "reorder_vertices_for_simplex: n=4, D=2, ANY three usize indices: Some iff distinct and in range, no panic",
   ["core::delaunay_triangulation::reorder_vertices_for_simplex"])
